@@ -28,10 +28,16 @@ type Config struct {
 	Sync    bool
 	Initial int64 // 0 = unset
 	Backend string
+	// NoLoad: the first handle on the (empty) store is used without an initial Load()
+	NoLoad bool
 }
 
 func (c Config) String() string {
-	return fmt.Sprintf("cache=%d fast=%v flush=%d sync=%v initial=%d backend=%s", c.Cache, c.Fast, c.Flush, c.Sync, c.Initial, c.Backend)
+	s := fmt.Sprintf("cache=%d fast=%v flush=%d sync=%v initial=%d backend=%s", c.Cache, c.Fast, c.Flush, c.Sync, c.Initial, c.Backend)
+	if c.NoLoad {
+		s += " no-initial-Load"
+	}
+	return s
 }
 
 // Op is one step of a history.
@@ -116,6 +122,12 @@ func NewEnv(c *fw.Ctx, cfg Config) (*Env, error) {
 	e.M = model.New(cfg.Initial)
 	e.R = ref.NewHistory(cfg.Initial)
 	e.T = e.open(cfg)
+	if cfg.NoLoad {
+		// a fresh tree may be written to without ever calling Load(); a later LoadVersion then
+		// meets a store without versions and a working tree that is already dirty
+		c.Obs("histories_without_initial_Load", 1)
+		return e, nil
+	}
 	if _, err := e.T.Load(); err != nil {
 		return nil, fmt.Errorf("Load on empty store: %w", err)
 	}
